@@ -26,7 +26,9 @@ def run_case(case, work):
     import femio
     from femio import FEMData, FEMAttribute, FEMElementalAttribute
     out = {'id': case['id']}
-    d = Path(work) / f"c{case['id']}"
+    # same-process history stream: cases with a path_key reuse ONE directory (same file names
+    # rewritten with other content and read again in this process)
+    d = Path(work) / (f"shared_{case['path_key']}" if case.get('path_key') else f"c{case['id']}")
     shutil.rmtree(d, ignore_errors=True)
     d.mkdir(parents=True)
     try:
